@@ -13,10 +13,14 @@ EXPLANATION = (
     "KeyDataType::wire_type covers every variant; the tag is built as (number << 4) | code and split with & 15 / >> 4; "
     "(C16.3) tuple_key2's evaluated tag constants put the negative-integer range strictly below the non-negative range, "
     "each 9 wide (payload lengths 0..=8), disjoint from the unsigned range and the unit tag, with INTEGER_TAG_MIN/MAX "
-    "spanning exactly their union.  TABLE, const eval, panic audit over REACH.")
+    "spanning exactly their union; (C16.1b) every index / range-slice expression of the decoders is in range by a "
+    "dominating comparison with the length of the same buffer, by construction, or by the type invariant offset <= "
+    "buffer.len() of TupleKeyParser / TupleKeyIterator, which is proved inductively (every write of offset stores a value "
+    "proved in range: +1 after a successful get()/comparison, or checked_add(..).filter(<= len)); unproved sites are "
+    "excepted one by one with the reason.  TABLE, const eval, panic audit and array-bounds dataflow over REACH.")
 NOT_DECIDED = ("order preservation, prefix contiguity and round-trip for values: relations between two inputs at width and escape "
                "boundaries; nothing in the code shape decides them")
-ASSUMPTIONS = ["explicit-construct-only audit: MIR Assert terminators (bounds, overflow) are out of scope"]
+ASSUMPTIONS = ["overflow Assert terminators are out of scope; the excepted slice sites are safe by the arguments in the exception table"]
 
 
 def rules(ctx):
